@@ -25,9 +25,11 @@ CHECKS = {
     "C02": (MC, "RS MDS property stated on the API-level specification (ApiTrace: an RS session is complete iff >= k distinct symbols were "
             "submitted and a decode trigger occurred; finish returns FAILURE below k). All 2^n received subsets of every (k,n) up to a bound, "
             "both RS codecs, m=4 and 8, both APIs, several orders, plus sampled subsets up to n=255 are run in the real decoders and validated by TLC; "
-            "decoded symbols must be unit vectors. GF2mModel.tla checks exhaustively that the evaluation points are pairwise distinct.",
-            "MDS of the mathematical code follows from distinct evaluation points (checked) and the generator being V_rest*V_top^-1 (checked per row in C06).",
-            "TLC trace validation (ApiTrace) + TLC field lemmas (GF2mModel)", "5/C02"),
+            "decoded symbols must be unit vectors. RsCodecModel.tla (the matrix construction, shuffle and Gauss-Jordan inversion of the code, transcribed) "
+            "is model-checked for every k and every selection of k of the 15 symbols of GF(2^4) and for 49k selections of GF(2^8): generator rows "
+            "canonical, selection invertible (MDS), reconstruction = source symbols; with n beyond the field the same model must find a singular selection.",
+            "GF(2^8) selections are drawn from a pool of 15 ESIs spread over 0..254 (k <= 7), not all of them.",
+            "TLC trace validation (ApiTrace) + TLC model checking (RsSession, RsCodecModel, GF2mModel)", "5/C02"),
     "C03": (MC, "ApiTrace decides, from the session's own parity-check equations only (GF2!SourceDetermined: Gauss-Jordan on sets), whether the "
             "received set determines all sources, and requires of_finish_decoding to complete exactly then; all 2^n subsets of several small "
             "LDPC points in several orders and both APIs, plus random histories around the decoding threshold with different libc rand() seeds.",
@@ -37,7 +39,7 @@ CHECKS = {
             "that it refines the definitional peeling closure (invariant ItIsPeeling) and keeps its counters/partial sums consistent. "
             "Conformance: after every of_decode_with_new_symbol of exhaustive and random streaming histories the real decoder's available "
             "set and completion flag are validated by TLC against PeelClosure of the session's equations (ApiTrace).",
-            "The null last repair symbol counts as known exactly when the session claims it (API-visible); bounded points.",
+            "The null last repair symbol counts as known exactly when the session claims it and the claim is true of the recorded equations (C15 judges the claim itself); bounded points.",
             "TLC model checking (LdpcIt refinement) + TLC trace validation (ApiTrace)", "5/C04"),
     "C06": (MC, "Every built repair symbol of encoder sessions (identity payloads, so the symbol is the generator row) is validated by TLC: RS rows "
             "must satisfy g*V_top = V[esi] over GF(2^m) built from the primitive polynomials (GF2m.tla; both RS codecs against the same spec, "
@@ -45,7 +47,7 @@ CHECKS = {
             "NULL) and checksums of source buffers are part of the action's post-condition. GF2mModel justifies the derived field operators exhaustively.",
             "Generator rows observed through identity payloads (linearity; kernels C13).",
             "TLC trace validation (ApiTrace!DoBuild with GF2m) + TLC field model (GF2mModel)", "5/C06"),
-    "C07": ("exploration", "Sanitizer-observed conformance runs driven by the specification's protocol: lengths 1..33, five alignments, parameter "
+    "C07": ("exploration", "Sanitizer-observed conformance runs driven by the specification's protocol: lengths 1..80 and page / 16-bit sizes, five alignments, parameter "
             "limits, release at every point, random histories of all codecs run under AddressSanitizer with exact-size application buffers, "
             "guard bytes, checksums of every application buffer and pointer table after every call (validated as post-conditions by ApiTrace); "
             "an ASan report or crash becomes a MemFault trace line that no specification action accepts.",
@@ -54,9 +56,11 @@ CHECKS = {
     "C08": (MC, "Allocation ledger (--wrap malloc/calloc/realloc/free) attributed per session; ApiTrace requires at Release: status OK, no live "
             "library block left except decoded source symbols handed to the application, nothing freed that the library did not allocate "
             "(double free = ASan MemFault). Release is issued at every point of small life cycles (unconfigured, configured, after each call, "
-            "after failed/successful finish) and at the end of random histories.",
+            "after failed/successful finish) and at the end of random histories, including instances of both roles that encode and then decode. "
+            "Model side: a ghost allocation ledger is threaded through every malloc/free site of the IT decoder and of the ML step in "
+            "LdpcIt.tla / LdpcMl.tla (LedgerOK, NoLeakAtRelease, MlLedgerOK, MlNoLeakAtRelease; with and without callback), model-checked by TLC.",
             "Ledger observes malloc-family calls made while a library call is active; stdio buffers pre-allocated.",
-            "TLC trace validation of ledger observations (ApiTrace!DoRelease)", "5/C08"),
+            "TLC trace validation of ledger observations (ApiTrace!DoRelease) + TLC model checking of the ledger in LdpcIt/LdpcMl", "5/C08"),
     "C09": (MC, "Finite boundary grid (0, 1, each limit, limit+1, 2^16, 2^31, 2^32-1; seeds around the signed range; m in 0..16) per codec: "
             "TLC compares every of_set_fec_parameters status with ParamCheck!InLimits (advertised limits read from the session), validates "
             "full encode/decode cycles on accepted boundary points with ApiTrace, and every single-argument corruption (NULL session, ESI "
@@ -71,7 +75,7 @@ CHECKS = {
     "C11": (MC, "ApiTrace!CbCheck: during each call the callback log must contain exactly the newly decoded (not received) source symbols, once "
             "each, with ESI < k, size = symbol length and the right session; of_get_source_symbols_tab must report the callback's buffer (or a "
             "library buffer when it returned NULL). Exhaustive subsets x {buf, null, mix} x both APIs and random histories.",
-            "For set_available_symbols a source symbol that the other submitted symbols already release may be either kept or decoded (the property does not say).",
+            "Every symbol of the table given to set_available_symbols counts as received by that call (kept by pointer, no callback), whatever the order in which the implementation walks the table.",
             "TLC trace validation (ApiTrace)", "5/C11"),
     "C17": (MC, "SparseMatrix.tla (set of (row,col) pairs plus the block/free-list allocator, BlockSize 2 in the model) is model-checked over all "
             "operation sequences to a bounded depth on small matrices (invariants: find = membership, sorted traversals, no dangling free-list "
